@@ -23,7 +23,7 @@ RULE_ROUTER = ('cases are TLC-generated histories of Router.tla (BFS: every hist
 def sub(pool, **kw):
     """constant substitutions for a pool suffix of MC_Router.tla"""
     s = {'Cfgs': 'Cfgs' + pool, 'Bases': 'Bases' + pool, 'HOps': 'HOps' + pool, 'ROps': 'ROps' + pool, 'COps': 'COps' + pool,
-         'UOps': 'UOps' + pool, 'Probes': 'Probes' + pool, 'ProbeMethods': 'Methods' + pool, 'CaseExtra': 'NoExtra', 'UrlProbes': 'NoUrls', 'THProbes': 'NoUrls'}
+         'UOps': 'UOps' + pool, 'Probes': 'Probes' + pool, 'ProbeMethods': 'Methods' + pool, 'CaseExtra': 'NoExtra', 'UrlProbes': 'NoUrls', 'THProbes': 'NoUrls', 'MOps': 'NoMOps'}
     s.update(kw)
     return s
 
@@ -246,18 +246,23 @@ def p_c10(q):
             gen_bfs('B', 1, rt=True), gen_sim('A', 12, 40, rt=True)]
 
 
+def subF(st):
+    st['subst'].update({'MOps': 'MOpsF', 'HOps': 'HOpsFO', 'Bases': 'BasesFO'})
+    return st
+
+
 def p_c19(q):
     F = dict(module='MC_RouterF', extra='MirrorExtra', urls='UrlSetF', rt=True)
     if q:
-        return [mc_router('T'), gen_bfs('F', 2, sample=0.25, **F), gen_sim('F', 8, 8, module='MC_RouterF', extra='MirrorExtra')]
-    return [mc_router('T'), gen_bfs('F', 2, **F), gen_bfs('F', 3, name='bfsF3', sample=0.02, **F), gen_sim('F', 14, 60, module='MC_RouterF', extra='MirrorExtra')]
+        return [mc_router('T'), subF(gen_bfs('F', 2, sample=0.25, **F)), subF(gen_sim('F', 8, 8, module='MC_RouterF', extra='MirrorExtra'))]
+    return [mc_router('T'), subF(gen_bfs('F', 2, **F)), subF(gen_bfs('F', 3, name='bfsF3', sample=0.02, **F)), subF(gen_sim('F', 14, 60, module='MC_RouterF', extra='MirrorExtra'))]
 
 
 def p_c09(q):
     F = dict(module='MC_RouterF')
     if q:
-        return [mc_router('T'), gen_bfs('F', 2, sample=0.25, **F), gen_sim('F', 8, 8, module='MC_RouterF')] + group_stages(2, 'C13', 0.1)[2:]
-    return [mc_router('T'), gen_bfs('F', 2, **F), gen_bfs('F', 3, name='bfsF3', sample=0.02, **F), gen_sim('F', 14, 60, module='MC_RouterF')] + group_stages(2, 'C13', 0.5)[2:]
+        return [mc_router('T'), subF(gen_bfs('F', 2, sample=0.25, **F)), subF(gen_sim('F', 8, 8, module='MC_RouterF'))] + group_stages(2, 'C13', 0.1)[2:]
+    return [mc_router('T'), subF(gen_bfs('F', 2, **F)), subF(gen_bfs('F', 3, name='bfsF3', sample=0.02, **F)), subF(gen_sim('F', 14, 60, module='MC_RouterF'))] + group_stages(2, 'C13', 0.5)[2:]
 
 
 def p_c18(q):
